@@ -249,3 +249,44 @@ def resolve(doc: Dict[str, Any], comp_id, platform: str, builtin: Dict[str, Any]
             set_path(res_opts, path, coerce(kind, v))
 
     return ("ok", {"options": res_opts, "variables": res_vars}), {"olayers": olayers, "vlayers": vlayers}
+
+
+def _selftest():
+    """Hand-computed cases (python -m ref.c04_layering)."""
+    builtin = {"command": {"arguments": "", "executable": None, "resolvePath": True},
+               "resourceRequest": {"numberThreads": 1, "memory": None},
+               "resourceManager": {"config": {"backend": "local", "walltime": 60.0}}, "variables": {}, "stage": 0}
+    doc = {
+        "variables": {"default": {"global": {"a": "dg", "n": 3, "only_default": "%(a)s!"}, "stages": {0: {"a": "ds"}, 1: {"a": "ds1"}}},
+                      "p1": {"global": {"a": "pg"}, "stages": {0: {"b": "ps-%(a)s"}}},
+                      "p2": {"global": {"a": "pg2", "leak": "x"}}},
+        "blueprint": {"default": {"global": {"command": {"arguments": "bp-dg"}, "resourceRequest": {"numberThreads": "%(n)s"}},
+                                  "stages": {0: {"command": {"arguments": "bp-ds %(a)s"}}}},
+                      "p1": {"global": {"resourceManager": {"config": {"backend": "lsf", "walltime": "30"}}},
+                             "stages": {0: {"resourceRequest": {"memory": 0}}}}},
+        "components": [{"stage": 0, "name": "c", "command": {"executable": "echo"}, "variables": {"z": "%(b)s/%(n)s"},
+                        "override": {"p1": {"command": {"arguments": ""}, "variables": {"n": "4"}},
+                                     "p2": {"command": {"executable": "other"}}}}]}
+    (st, exp), _ = resolve(doc, (0, "c"), "default", builtin)
+    assert st == "undefined" and exp == "b", (st, exp)          # z references b which only p1 defines
+    (st, exp), info = resolve(doc, (0, "c"), "p1", builtin)
+    assert st == "ok"
+    assert exp["variables"] == {"a": "pg", "n": "4", "only_default": "pg!", "b": "ps-pg", "z": "ps-pg/4"}, exp["variables"]
+    o = exp["options"]
+    assert o["command"] == {"arguments": "", "executable": "echo", "resolvePath": True}, o["command"]   # "" from override wins
+    assert o["resourceRequest"] == {"numberThreads": 4, "memory": 0}, o["resourceRequest"]               # typed, falsy 0 wins
+    assert o["resourceManager"]["config"] == {"backend": "lsf", "walltime": 30}
+    assert winner(info["olayers"], ("command", "arguments")) == "ovr"
+    user = {"global": {"a": "user"}, "stages": {0: {"n": 9}}}
+    (st, exp), _ = resolve(doc, (0, "c"), "p1", builtin, user)
+    assert exp["variables"]["a"] == "user" and exp["variables"]["n"] == "4" and exp["variables"]["b"] == "ps-user"
+    doc["components"][0]["variables"]["b"] = "comp-b"
+    (st, exp), _ = resolve(doc, (0, "c"), "p2", builtin)
+    # on p2: a = default global "dg" < default stage "ds" < platform global "pg2"
+    assert st == "ok" and exp["options"]["command"] == {"arguments": "bp-ds pg2", "executable": "other", "resolvePath": True}
+    assert exp["variables"]["leak"] == "x" and exp["variables"]["a"] == "pg2" and exp["variables"]["z"] == "comp-b/3"
+    print("c04_layering selftest ok")
+
+
+if __name__ == "__main__":
+    _selftest()
